@@ -126,6 +126,7 @@ func (r *Router) DeployService(name string, targetURLs []string, options Service
 func (r *Router) SetRolloutTargets(name string, targetURLs []string, deployTimeout time.Duration, drainTimeout time.Duration) error {
 	service := r.serviceForName(name)
 	if service == nil {
+		verifEmit("not_found", name)
 		return ErrorServiceNotFound
 	}
 
@@ -169,6 +170,7 @@ func (r *Router) RemoveService(name string) error {
 	return r.withWriteLock(func() error {
 		service := r.services.Get(name)
 		if service == nil {
+			verifEmit("not_found", name)
 			return ErrorServiceNotFound
 		}
 
